@@ -525,3 +525,25 @@ SPECS["C16"] = {
          "limits": {"quick": {"timeout": "600s"}}},
     ],
 }
+
+
+SPECS["C13"] = {
+    "explanation": "The informer is replaced by a harness model (a store of pods whose IP index is computed by the REAL podByIpIndexFunc; the store is updated before the handler runs, as the "
+                   "informer does). Over histories of symbolic events on two pods and two IPs - add / update (symbolic phase Pending/Running/Succeeded/Failed, host-network flag, IP unset/ip1/ip2 "
+                   "with the property's distinct-IP assumption, deletion mark, label value v1/v2), delete (plain or DeletedFinalStateUnknown tombstone), lookup - the real "
+                   "cacheInvalidationHandler.OnAdd/OnUpdate/OnDelete, Provider.Peek / instanceFromCache / instanceFromInformer and getTagNameFromRegex are executed and every lookup is "
+                   "compared with the specification: identity namespace/name and the tag derived from the CURRENT labels of the running, non-host-network, not-being-deleted pod holding the "
+                   "IP (tag name = the regex's 'tag' group, only for matching keys), or nothing.",
+    "bounds": {"quick": "all histories of 2 events; the scripted histories add-lookup-update-lookup and add-lookup-delete-lookup with every symbolic pod attribute", "thorough": "all histories of 3 events"},
+    "outside": ["client-go's informer itself (reflection, goroutines): replaced by the model above", "handler/lookup races", "regular-expression semantics: one concrete label regex is executed natively by the engine",
+                "annotations (same code path as labels)", "more than two pods, pods sharing an IP"],
+    "assumptions": STUBS_COMMON + ["package initialisers of k8s.io/* are not run (only struct literals and field accesses of k8s API types are used)"],
+    "jobs": [
+        {"pkg": "./pkg/cachedinstances/k8s", "harness": "pkg/cachedinstances/k8s", "mode": "machine",
+         "entries": {"quick": ["VerifC13_2", "VerifC13_AddLookUpdLook", "VerifC13_AddLookDelLook", "VerifC13_Twin"],
+                     "thorough": ["VerifC13_2", "VerifC13_3", "VerifC13_AddLookUpdLook", "VerifC13_AddLookDelLook", "VerifC13_Twin"]},
+         "reach": {"VerifC13_AddLookUpdLook": ["add", "update", "lookup-none", "lookup-pod"], "VerifC13_AddLookDelLook": ["delete", "lookup-pod"]},
+         "twin": {"VerifC13_Twin": True},
+         "limits": {"quick": {"timeout": "900s"}, "thorough": {"timeout": "3000s"}}},
+    ],
+}
